@@ -115,6 +115,10 @@ def cfg_events(src, n):
 def drive(task):
     budget = {"t": MAX_TIMEOUTS, "skipped": 0}
     k = task["kind"]
+    if k == "sched_replay":
+        from .. import schedule_replay
+        yield from schedule_replay.drive_file(task["path"], task["lo"], task["hi"], task.get("stride", 1))
+        return
     if task.get("what") == "nfa":
         rng = random.Random(task.get("seed", 5))
         for src in gen.nfa_srcs(task):
@@ -160,6 +164,10 @@ def drive(task):
 def redrive(src):
     budget = {"t": 100, "skipped": 0}
     k = src["kind"]
+    if k == "gen_line":
+        from .. import schedule_replay
+        yield from schedule_replay.replay_line(src["line"])
+        return
     w = src.pop("w", None)
     if k in ("exh_nfa", "rnd_nfa"):
         evs = fa_events(gen.build_nfa(src), "nfa", 3, src, budget)
@@ -196,6 +204,8 @@ RULE = ("NFA(2,{a,b}) and NFA(3,{a}) (strided), random NFAs (epsilon self-loops 
 
 
 def nontrivial(e):
+    if e["op"] == "sched_replay":
+        return len(e["src"]["line"]["schedule"]) >= 3
     if e["op"] == "path_trace":
         return len(e["steps"]) >= 3
     return (not e.get("isnone", False)) and len(e["w"]) > 0
@@ -205,7 +215,19 @@ MATCHERS = {}
 
 
 def check(tier, seed):
-    return base.standard_check(PID, tier, seed, tasks(tier, seed), MODELS[tier], RULE, nontrivial, matchers=MATCHERS,
+    from .. import schedule_replay
+    info = {}
+    ts = tasks(tier, seed) + schedule_replay.gen_tasks(PID, "path", tier, info, quick_stride=3)
+
+    def extra(res, done):
+        res.notes["model_schedules_forced_onto_impl"] = dict(
+            info, meaning="every pop order and, per popped state, every order of its outgoing edges of the path search "
+                          "on all epsilon graphs over 3 states x source sets x targets (Schedules.tla, Algo = path) is "
+                          "forced onto nfa_find_epsilon_path and, for one source state, onto nfa_simulate_word / "
+                          "pda_simulate_word of the empty word; the runs are judged and the returned path is compared "
+                          "with the model's")
+
+    return base.standard_check(PID, tier, seed, ts, MODELS[tier], RULE, nontrivial, matchers=MATCHERS, extra=extra,
                                assumptions=["termination is observed with a CPU-time limit of 4 s per call (calls "
                                             "that terminate take < 10 ms) and explained by the EpsPath model",
                                             "PDA simulation judged under closure limit 40"])
